@@ -136,10 +136,13 @@ func init() {
 
 // drawHashLiteral draws a hash literal text (possibly with keys that print
 // alike, duplicate keys, and expression keys).
-func drawHashLiteral(rt *rapid.T, depth int) string {
+func drawHashLiteral(rt *rapid.T, depth int, extraKeys ...string) string {
 	n := rapid.IntRange(2, 8).Draw(rt, "npairs")
 	keys := []string{`"a"`, `"b"`, `"c"`, `1`, `"1"`, `1.0`, `2`, `"2"`, `2.5`, `"2.5"`, `(-1)`, `"-1"`, `"a" + "b"`, `1 + 1`, `"k" + string(1)`, `"Name"`, `10`, `"10"`, `9`, `"a\nb"`, `"a\\nb"`, `"t\tx"`, `"t\\tx"`, `((0 - 1.0) ** 0.5)`, `(- ((0 - 1.0) ** 0.5))`, `(0.0 - 0.0)`, `(- (0.0 * 1))`}
-	vals := []string{`1`, `2`, `"x"`, `"y"`, `true`, `[1, 2]`, `1.5`, `len("abc")`, `"v" + "w"`}
+	vals := []string{`1`, `2`, `"x"`, `"y"`, `true`, `[1, 2]`, `1.5`, `len("abc")`, `"v" + "w"`, `[3, 4]`, `[1, 2 + 1]`, `{"q": 1}`, `{"q": 2}`, `len("ab") + 1`, `(2 > 1) ? 1 : 0`, `- 1`}
+	for _, k := range extraKeys {
+		keys = append(keys, k, k)
+	}
 	var parts []string
 	if gen.Uniform(rt, "nankeys", 8) == 0 {
 		// keys that print alike AND have the same type: NaNs with different
@@ -150,7 +153,7 @@ func drawHashLiteral(rt *rapid.T, depth int) string {
 		k := rapid.SampledFrom(keys).Draw(rt, "key")
 		var v string
 		if depth > 0 && gen.Uniform(rt, "nested", 5) == 0 {
-			v = drawHashLiteral(rt, depth-1)
+			v = drawHashLiteral(rt, depth-1, extraKeys...)
 		} else {
 			v = rapid.SampledFrom(vals).Draw(rt, "val")
 			if gen.Uniform(rt, "uniqueval", 2) == 0 {
@@ -167,8 +170,15 @@ func drawDetCase(rt *rapid.T) (*DetCase, bool) {
 	var b strings.Builder
 	nontrivial := false
 	nh := rapid.IntRange(0, 3).Draw(rt, "nhash")
+	var histKeys []string
+	if gen.Uniform(rt, "histkeys", 3) == 0 {
+		// key variables with a history: used as keys (or printed) before, stepped
+		// since; they now coincide with literal keys of the pool (2.5, 2, "10")
+		b.WriteString("kx = 1.5; kh0 = {kx: 0, 2.5: 1}; kx++;\nky = 1; ks0 = string(ky) + string({ky: ky}); ky++;\nkz = \"1\"; kh1 = {kz: 1}; kz += \"0\";\n")
+		histKeys = []string{"kx", "ky", "kz"}
+	}
 	for i := 0; i < nh; i++ {
-		fmt.Fprintf(&b, "h%d = %s;\n", i, drawHashLiteral(rt, 1))
+		fmt.Fprintf(&b, "h%d = %s;\n", i, drawHashLiteral(rt, 1, histKeys...))
 		nontrivial = true
 		switch gen.Uniform(rt, "use", 5) {
 		case 0:
